@@ -31,6 +31,12 @@ def main():
     ap.add_argument('--kind', default='invert_if')
     ap.add_argument('--file')
     args = ap.parse_args()
+    # work on a snapshot of the package taken now: /repo may be patched and reverted by other tools while the sweep runs
+    import shutil
+    import tempfile
+    snap = tempfile.mkdtemp(prefix='pwsa-sweep-snapshot-')
+    shutil.copytree(os.path.join(args.repo, 'pyworkers'), os.path.join(snap, 'pyworkers'), ignore=shutil.ignore_patterns('__pycache__'))
+    args.repo = snap
     variants.VARIANTS.clear()
     for rel in variants.ALL_FILES:
         if args.file and rel != args.file:
@@ -90,7 +96,10 @@ def main():
                 if any(v['name'] == name for v in variants.VARIANTS):
                     continue
                 variants.VARIANTS.append({'kind': 'benign', 'prop': None, 'name': name, 'edits': [(rel, (args.kind, st.lineno, st.col_offset), None)], 'expect': None})
-    s = selftest.run_selftest(args.repo, None, args.jobs)
+    try:
+        s = selftest.run_selftest(args.repo, None, args.jobs)
+    finally:
+        shutil.rmtree(snap, ignore_errors=True)
     for r in s['results']:
         if r['status'] != 'silent':
             print(f"{r['status'].upper():12} {r['name']}: {r['detail']}")
